@@ -60,7 +60,7 @@ EITHER = ['33554433', '33554434']
 # tree* (probed once per process through the regression case); once it is fixed the region is
 # searched like everything else and any mismatch there reports under the region's key.
 
-K_PUTGAP = 'put.gap.recno-vs-bytes'
+K_PUTGAP = 'put.gap.small-file'
 K_IMPPUT = 'put.implicit-after-get-at-eof'
 K_ALIAS = 'alias'
 
@@ -719,17 +719,18 @@ def units(tier):
     # VERIF_DIV=n runs 1/n of the examples (same seeds, i.e. a prefix): used for mutation runs only
     div = max(1, int(os.environ.get('VERIF_DIV', '1')))
     return [
-        Unit('histories', 'hyp', shards=16, examples={'quick': 150 // div, 'thorough': 5000 // div},
+        Unit('histories', 'hyp', shards=16, examples={'quick': 150 // div, 'thorough': 3000 // div},
              strategy=lambda: strat_case(maxops, alias=False)),
-        Unit('aliased', 'hyp', shards=16, examples={'quick': 40 // div, 'thorough': 1500 // div},
+        Unit('aliased', 'hyp', shards=16, examples={'quick': 40 // div, 'thorough': 600 // div},
              strategy=lambda: strat_case(maxops, alias=True)),
     ]
 
 
 REGRESSIONS = [
-    # open finding: RandomFile.put compares the record index with the file length in bytes
+    # fixed 24257d3f: RandomFile.put compared the record index with the file length in bytes
     REG_PUTGAP,
-    # open finding: implicit PUT after a GET at/after the end of the file overwrites that record
+    # fixed 24257d3f (same commit; single number): implicit PUT after a GET at/after the end of
+    # the file overwrote that record
     REG_IMPPUT,
     # open finding: data PUT through one number is not visible through a second number
     REG_ALIAS,
@@ -757,4 +758,15 @@ REGRESSIONS = [
              {'o': 'q', 'n': 1}]},
 ]
 
-KILLS = []
+KILLS = [
+    'diskfiles.RandomFile._set_record_pos: seek((pos-1)*reclen) -> seek(pos*reclen)  => ./check red: get.data, get.gap-nonzero, host.image, lof, field.value, put.gap.small-file (10 buckets)',
+    "RandomFile.get: '_recpos += 1' dropped  => ./check red: loc, put.implicit-after-get-at-eof",
+    "RandomFile.put: '_recpos += 1' dropped  => ./check red: loc, put.implicit-after-get-at-eof",
+    'RandomFile.put: zero fill omitted  => host.image, lof, get.data, get.gap-nonzero',
+    'RandomFile.put: original defect restored (record index compared with byte length)  => regressions put.gap.small-file, put.implicit-after-get-at-eof',
+    'RandomFile.eof: > -> >= (last record reads as zeros)  => get.data, host.image',
+    'Files._check_pos upper bound 2**25 -> 2**25+8  => recno.range ; lower bound 1 -> 0 => recno.range',
+    'FieldFile.set_buffer pads with blanks instead of NUL  => get.beyond-end, get.data, host.image',
+    'RandomFile.loc returns _recpos+1  => loc ; _set_record_pos: _recpos = pos  => loc, host.image, lof',
+    '(light runner = REGRESSIONS + 120 generated histories per unit, no shrinking; first three also through ./check)',
+]
